@@ -15,7 +15,8 @@
 From Coq Require Import List NArith ZArith Bool.
 From KV Require Import Lib.Bits Lib.Bytes Lib.Crc Spec.RecordFormat Model.Records
   Proofs.RecordsCodec Proofs.RecordsSet Proofs.RecordsWriters Proofs.RecordsLegacy
-  Proofs.RecordsReaders Proofs.RecordsConn Proofs.RecordsFetch Proofs.RecordsV1.
+  Proofs.RecordsReaders Proofs.RecordsConn Proofs.RecordsFetch Proofs.RecordsV1
+  Proofs.RecordsReadersV1 Model.Pages Proofs.PagesProofs.
 Import ListNotations.
 Open Scope Z_scope.
 
@@ -119,11 +120,6 @@ Definition C05_fetch_paths_agree_full_statement : Prop :=
   proto_read decomp (enc_set comp its) = POut (records its) false /\
   exists fuel0, forall fuel, (fuel0 <= fuel)%nat ->
     msr_read decomp fuel min (enc_items comp its) = (map conn_view (records_ctl its), MEof).
-(* Client.Fetch never shows records of control batches (any sequence of items) *)
-Definition C05_control_hidden_full_statement : Prop :=
-  forall decomp bs recs e, proto_read decomp bs = POut recs e ->
-  forall its ok, dec_prefix decomp (length bs) (skipn 4 bs) = (its, ok) ->
-  forall r, In r recs -> In r (records its).
 (* a batch / message whose checksum does not match yields none of its records (any items) *)
 Definition C05_crc_mismatch_no_records_full_statement : Prop :=
   forall comp decomp : N -> list N -> list N, (forall c b, decomp c (comp c b) = b) ->
@@ -156,30 +152,66 @@ Theorem C05_fetch_paths_agree_partial : forall comp decomp : N -> list N -> list
 Proof. exact fetch_paths_agree_v2. Qed.
 Print Assumptions C05_fetch_paths_agree_partial.
 
-(* Client.Fetch hands out exactly the records of the batches that are not control batches *)
-Theorem C05_control_hidden_partial : forall comp decomp : N -> list N -> list N,
-  (forall c b, decomp c (comp c b) = b) ->
-  forall bs, Forall (batch_ok comp) bs -> zlen (enc_items comp (map IBatch bs)) < ZM31 ->
-  exists recs, proto_read decomp (enc_set comp (map IBatch bs)) = POut recs false /\
-    (forall r, In r recs -> exists b, In b bs /\ is_control (b_attrs b) = false /\ In r (map (rec_of_rec2 b) (b_recs b))) /\
-    (forall b r, In b bs -> is_control (b_attrs b) = false -> In r (map (rec_of_rec2 b) (b_recs b)) -> In r recs).
-Proof. exact control_hidden_v2. Qed.
-Print Assumptions C05_control_hidden_partial.
-
-(* good batches, then a format-2 batch (any content [tail] after a stored checksum [crc] that
-   differs from the CRC-32C of that content), then anything: Client.Fetch returns exactly the
-   records of the good batches; it reports the error only when there was no good batch *)
+(* good items of ANY format, then a format-2 batch (any content [tail] after a stored checksum
+   [crc] that differs from the CRC-32C of that content), then anything: Client.Fetch returns
+   exactly the records of the good items; it reports the error only when there was no good
+   item.  Missing for the full statement: a corrupted format-0/1 message (IEEE checksum). *)
 Theorem C05_crc_mismatch_no_records_partial : forall comp decomp : N -> list N -> list N,
   (forall c b, decomp c (comp c b) = b) ->
-  forall bs base epoch crc tail rest,
-  Forall (batch_ok comp) bs -> in_i64 base -> 9 + zlen tail < ZM31 -> length crc = 4%nat ->
+  forall its base epoch crc tail rest,
+  Forall (item_ok comp) its -> in_i64 base -> 9 + zlen tail < ZM31 -> length crc = 4%nat ->
   get_be crc 0%N <> w32 (crc32c tail) ->
-  let content := concat (map (enc_batch comp) bs) ++ raw_batch base epoch crc tail ++ rest in
+  let content := enc_items comp its ++ raw_batch base epoch crc tail ++ rest in
   zlen content < ZM31 ->
   proto_read decomp (put_bes 4 (zlen content) ++ content) =
-  POut (records (map IBatch bs)) (match bs with [] => true | _ => false end).
-Proof. exact crc_mismatch_v2. Qed.
+  POut (records its) (match its with [] => true | _ => false end).
+Proof. exact proto_read_items_crc_mismatch. Qed.
 Print Assumptions C05_crc_mismatch_no_records_partial.
+
+(* ---- Client.Fetch path on EVERY kind of item (format 0 and 1 messages, compressed wrappers of
+        magic 0 (absolute inner offsets) and magic 1 (relative inner offsets, contiguous or not
+        — after the fix of the wrapper rebase), format-2 batches; every codec; any mixture):
+        exactly the reference's records with absolute offsets, no error.
+        item_ok: well-formed (field ranges, sizes below 2^31), codec <= 4, wrappers non-empty,
+        a magic-0 wrapper carries the offset of its last inner message, wrapper offset 0 only
+        with last inner offset 0. *)
+Theorem C05_fetch_protocol_path_all_formats : forall comp decomp : N -> list N -> list N,
+  (forall c b, decomp c (comp c b) = b) ->
+  forall its, Forall (item_ok comp) its -> zlen (enc_items comp its) < ZM31 ->
+  proto_read decomp (enc_set comp its) = POut (records its) false.
+Proof. exact proto_read_items. Qed.
+Print Assumptions C05_fetch_protocol_path_all_formats.
+
+(* control batches contribute nothing to [records], whatever surrounds them *)
+Theorem C05_control_hidden : forall comp decomp : N -> list N -> list N,
+  (forall c b, decomp c (comp c b) = b) ->
+  forall its, Forall (item_ok comp) its -> zlen (enc_items comp its) < ZM31 ->
+  proto_read decomp (enc_set comp its) = POut (flat_map (records_of false) its) false /\
+  (forall b, is_control (b_attrs b) = true -> records_of false (IBatch b) = []).
+Proof. exact control_hidden_items. Qed.
+Print Assumptions C05_control_hidden.
+
+(* ---- pages (protocol/buffer.go; Model/Pages.v): for EVERY sequence of atomic actions of any
+        number of buffers and refs, starting from nothing (every interleaving of concurrent
+        decodes and Closes, the pool free to forget pages): the invariant holds (every holder
+        of a page is counted in its refc; a pooled page has count 0) and the bytes seen through
+        a pageRef are the same at every later moment until that ref is closed *)
+Open Scope nat_scope.
+Theorem C05_pages_stable : forall ops1 ops2 s1 s2 r bytes,
+  run s0 ops1 = Some s1 -> run s1 ops2 = Some s2 ->
+  read_ref s1 r = Some bytes ->
+  Inv s2 /\ (read_ref s2 r = Some bytes \/ In (OUnrefRef r) ops2).
+Proof. exact pages_stable. Qed.
+Print Assumptions C05_pages_stable.
+
+Theorem C05_pooled_unreferenced : forall ops s, run s0 ops = Some s ->
+  forall p, p_pool (get_page s p) = true ->
+  p_refc (get_page s p) = 0 /\
+  (forall r rf, nth_error (s_refs s) r = Some rf -> r_live rf = true -> ~ In p (map fst (r_segs rf))) /\
+  (forall b bf, nth_error (s_bufs s) b = Some bf -> b_live bf = true -> ~ In p (b_pages bf)).
+Proof. exact pooled_unreferenced. Qed.
+Print Assumptions C05_pooled_unreferenced.
+Open Scope Z_scope.
 
 (* ---- non-vacuity: concrete instances meeting the hypotheses ---- *)
 Example C05_nonvacuous_proto_v2 :
@@ -206,3 +238,14 @@ Proof.
   split; [vm_compute; reflexivity|]. split; [split; vm_compute; reflexivity|].
   eexists. split; [vm_compute; reflexivity|]. vm_compute. reflexivity.
 Qed.
+
+(* a page goes back to the pool and is reused by another buffer while an older ref is open *)
+Open Scope nat_scope.
+Example C05_nonvacuous_pages :
+  let ops1 := [ONewBuf; ONewPage 0 None; OAppend 0 [1%N; 2%N; 3%N]; ONewPage 0 None; OAppend 0 [4%N; 5%N];
+               ORef 0 [(0%nat, (1%nat, 3%nat))]; ORef 0 [(1%nat, (0%nat, 2%nat))]; OUnrefBuf 0] in
+  let ops2 := [OUnrefRef 1; ONewBuf; ONewPage 1 (Some 1%nat); OAppend 1 [9%N; 9%N; 9%N]] in
+  exists s1 s2, run s0 ops1 = Some s1 /\ run s1 ops2 = Some s2 /\
+    read_ref s1 0 = Some [2%N; 3%N] /\ read_ref s2 0 = Some [2%N; 3%N] /\ read_ref s2 1 = None /\
+    p_data (get_page s2 1) = [9%N; 9%N; 9%N].
+Proof. cbn zeta. eexists. eexists. split; [vm_compute; reflexivity|]. split; [vm_compute; reflexivity|]. vm_compute. repeat split. Qed.
